@@ -5,7 +5,10 @@ for d in sorted(glob.glob('/verif/seeded/*/meta.json')):
     m = json.load(open(d))
     note = m.get('needs_to_manifest', '').strip().splitlines()
     first = ' '.join(note[:2])[:160]
-    rows.append('| %s-%s | %s | %s | %s |' % (m['property'], m['mutant'], ', '.join(m['caught_by']) or '**not caught** (%s)' % ', '.join('%s: exit %s' % (k, v['exit']) for k, v in m['checks_run'].items()),
+    caught = ', '.join(m['caught_by'])
+    if m.get('status') == 'neutralised':
+        caught = 'n/a: neutralised by a later fix (%s)' % m.get('status_note', '')[:120]
+    rows.append('| %s-%s | %s | %s | %s |' % (m['property'], m['mutant'], caught or '**not caught** (%s)' % ', '.join('%s: exit %s' % (k, v['exit']) for k, v in m['checks_run'].items()),
                                               'yes' if m.get('ported_to_current_head') else 'no', first.replace('|', '/')))
 open('/verif/seeded/SUMMARY.md', 'w').write('''# Seeded changes and the checks that catch them
 
